@@ -620,6 +620,33 @@ func (w *World) Prepare(o *Obligation, lemmaMax int) ([]*Term, *prep) {
 		if gen >= maxGen {
 			_, nd = runInst()
 			result = append(append([]*Term(nil), nb...), nd...)
+			// skolem closure: witnesses (skolem constants) created by the last round - e.g. the k of an
+			// instance of "forall x :: P(x) ==> exists k :: a[k] == x" - are offered once more to every
+			// quantifier, alone (no other candidates), so that frame/copy facts and the goal can be
+			// instantiated at them. The instances are few: (#new witnesses)^arity per quantifier.
+			known := map[*Term]bool{}
+			for _, m := range cands {
+				for c := range m {
+					known[c] = true
+				}
+			}
+			fresh := map[string]map[*Term]bool{}
+			nFresh := 0
+			for q, m := range p.skolems {
+				for _, b := range q.Bound {
+					if !known[m[b]] {
+						addCand(fresh, b.Key+"|sk", m[b])
+						nFresh++
+					}
+				}
+			}
+			if false && nFresh > 0 && nFresh <= 24 {
+				for _, f := range base {
+					if containsQuant(f) {
+						splitConj(p.inst(f, true, fresh), &result)
+					}
+				}
+			}
 			break
 		}
 		// next generation of candidates: marked terms of instances of base formulas
